@@ -27,6 +27,26 @@ def make_scratch():
     return d
 
 
+def make_compiled_scratch():
+    """Copy /repo's current working tree and build the Cython extension in the copy (setup.py build_ext --inplace):
+    the *compiled* current source.  Raises if the build fails."""
+    d = tempfile.mkdtemp(prefix="btverif_cy_")
+    for f in ("setup.py", "pyproject.toml", "README.md"):
+        if os.path.exists(os.path.join(REPO, f)):
+            shutil.copy(os.path.join(REPO, f), d)
+    shutil.copytree(os.path.join(REPO, "bt"), os.path.join(d, "bt"),
+                    ignore=shutil.ignore_patterns("*.so", "*.c", "__pycache__", "*.pyc"))
+    env = dict(os.environ)
+    env.pop("PYTHONPATH", None)
+    p = subprocess.run([PY, "setup.py", "build_ext", "--inplace"], cwd=d, capture_output=True, text=True, env=env, timeout=1200)
+    so = [f for f in os.listdir(os.path.join(d, "bt")) if f.endswith(".so")]
+    if p.returncode != 0 or not so:
+        shutil.rmtree(d, ignore_errors=True)
+        raise RuntimeError("building the compiled extension failed:\n" + (p.stdout + p.stderr)[-3000:])
+    shutil.rmtree(os.path.join(d, "build"), ignore_errors=True)
+    return d
+
+
 def impl_env(scratch, hashseed="0"):
     env = dict(os.environ)
     env["PYTHONPATH"] = scratch + os.pathsep + os.path.join(VERIF, "harness")
@@ -34,6 +54,16 @@ def impl_env(scratch, hashseed="0"):
     env["PYTHONDONTWRITEBYTECODE"] = "1"
     env.pop("PYTHONSTARTUP", None)
     return env
+
+
+def core_kind(scratch):
+    """'compiled' or 'interpreted': which bt.core the scratch copy really imports"""
+    p = subprocess.run([PY, "-c", "import bt.core as c; print(c.__file__)"], capture_output=True, text=True,
+                       env=impl_env(scratch), timeout=300)
+    f = p.stdout.strip().splitlines()[-1] if p.stdout.strip() else ""
+    if not f.startswith(scratch):
+        raise RuntimeError("scratch copy does not import its own bt.core: %r %s" % (f, p.stderr[-500:]))
+    return "compiled" if f.endswith(".so") else "interpreted"
 
 
 def run_impl(scratch, script, stdin_text, args=(), hashseed="0", timeout=1800):
